@@ -1421,8 +1421,14 @@ pub fn run(tier: Tier, seed: u64) -> ! {
         "bounds".into(),
         json!({"per_call_s": BOUND_S, "timeout_confirmation_alone_s": CONFIRM_BOUND_S, "address_space_bytes": RLIMIT_AS_BYTES, "stack_bytes": STACK_BYTES, "children_in_parallel": PARALLEL}),
     );
-    for w in &acc.inconclusive {
-        rep.inconclusive(w);
+    // A batch timeout / death that the culprit alone does not reproduce has been *judged by its
+    // confirmation run* (the input returned, alone, within the bound): it is listed in the evidence
+    // and does not change the verdict. Only when many sub-cases behave like that is the machine too
+    // disturbed for the wall-clock proxy to mean anything, and the run is inconclusive.
+    rep.extra.insert("batch_events_not_reproduced_alone".into(), json!(acc.inconclusive));
+    let unreproduced: u64 = acc.counters.iter().filter(|(k, _)| k.starts_with("unreproduced.")).map(|(_, v)| *v).sum();
+    if unreproduced > 12 {
+        rep.inconclusive(&format!("{unreproduced} batch timeouts / deaths were not reproduced by the culprit alone (machine too disturbed); first: {}", acc.inconclusive.first().cloned().unwrap_or_default()));
     }
     rep.assumptions = vec![
         "'all strings' is sampled: fixed directed corpus + seeded random generation/mutation per language".into(),
